@@ -416,6 +416,7 @@ func genBytes(t *rapid.T) bcase {
 	for i := 0; i < np; i++ {
 		pr := genProg(t)
 		pr.swallow = "" // the byte-level reference model assumes handlers that return read errors
+		pr.retErr = ""  // ... and no errors of their own
 		bc.progs = append(bc.progs, pr)
 	}
 	return bc
